@@ -424,6 +424,8 @@ def _boxes(tier):
         # without a generic base interferometer: depth 0
         for d in (1, 2, 3):
             B.append(dict(name="roots", d=d, nmax=3, occs="all", variants=ALL_VARIANTS, bases=("id", "U"), levels=()))
+        # four photons (the default cutoff of 4 no longer holds them): two modes, default and explicit cutoff
+        B.append(dict(name="roots-n4", d=2, nmax=4, occs=[(0, 4), (2, 2), (3, 1)], variants=ALL_VARIANTS, bases=("U",), levels=(), cutoffs=(None, "n+1")))
         # every input x every single feature
         B.append(dict(name="all-inputs-x1", d=2, nmax=3, occs="all", variants=ALL_VARIANTS, bases=("U",), levels=("mid",)))
         B.append(dict(name="all-inputs-x1", d=3, nmax=3, occs="all", variants=CORE_VARIANTS, bases=("U",), levels=("small",)))
@@ -490,7 +492,7 @@ def _items(tier, seed):
                         for part in range(nsplit):
                             items.append({"box": box["name"], "bi": bi, "roots": [root], "levels": list(box["levels"]), "part": part, "nsplit": nsplit})
     for (bi, d, occ), roots in grouped.items():
-        items.append({"box": "roots", "bi": bi, "roots": roots, "levels": [], "part": 0, "nsplit": 1})
+        items.append({"box": _boxes(tier)[bi]["name"], "bi": bi, "roots": roots, "levels": [], "part": 0, "nsplit": 1})
     # heavy items first (deterministic order), so that the pool is balanced
     def key(it):
         r = it["roots"][0]
@@ -534,8 +536,9 @@ def run(ctx, builddir):
                "Beamsplitter5050); that the gates implement them is C07's subject")
     ctx.assume("tolerance |a-b| <= 1e-9 + 1e-9*max(|a|,|b|) per value; sums of a table: that tolerance times (1 + number of entries); "
                "non-negativity tolerance 1e-12")
-    ctx.assume("a table whose cutoff truncates the photon number (DistinguishableNumberState does not infer the cutoff) is "
-               "compared with the reference on the truncated basis; 'sums to one' is demanded only when nothing is truncated")
+    ctx.assume("the cutoff of a fixed-particle-number program is inferred under the default Config (documented in Config; true for "
+               "NumberState); a table that lacks the n-photon sector under the default Config is a violation (cutoff_not_inferred), "
+               "its remaining entries are still compared with the reference on the truncated basis")
     ctx.assume("get_marginal_fock_probabilities(M) on a post-selected state takes ORIGINAL mode labels (pinned by the repository's "
                "tests test_marginal_probabilities_4_modes_postselected / test_postselecting_on_same_mode_raises_PiquassoException); "
                "the same marginal is also taken through the public path: program + one ParticleNumberMeasurement on M, shots=None")
@@ -832,7 +835,6 @@ def _evaluate(ctx, d, cfg_cutoff, prog, model, state):
     """returns the list of (signature, detail, fingerprint) violated in this state"""
     import numpy as np
     from mc.refmodel import passiveref as R
-    from piquasso.api.exceptions import PiquassoException
 
     findings = []
     ctx.count("states_checked")
@@ -874,6 +876,22 @@ def _evaluate(ctx, d, cfg_cutoff, prog, model, state):
     for name, obs, site in (("table", tab, site_table), ("map", mp, site_table), ("state_vector", sv, SITE_SLOS), ("single", single, site_single), ("norm", norm, "PassiveState.norm")):
         if obs.exc is not None:
             raised[name] = (site, obs.exc)
+
+    # A number state prepared through DistinguishableNumberState under the default Config: the cutoff is documented to be
+    # inferred "whenever possible, for example for simulations with a fixed particle number" (and is, for NumberState), so
+    # the table must contain the n-photon sector.  If it does not, that is ONE finding; exceptions of the interfaces that
+    # index the truncated space belong to it, the values that ARE there are still compared with the reference.
+    if truncated and cfg_cutoff is None and model.kind != "ind":
+        symptoms = ["cutoff %d <= %d photons: the table has no %d-photon sector (reference mass inside the table %.6f, norm says %s)"
+                    % (cutoff, n - npost, n - npost, sum(exp.values()), norm.values if norm.values is not None else "n/a")]
+        for nm in ("table", "map", "state_vector", "norm"):
+            if nm in raised and isinstance(raised[nm][1], IndexError):
+                symptoms.append("%s raises IndexError (%s)" % (nm, str(raised[nm][1])[:80]))
+                del raised[nm]
+        findings.append((
+            base_sig(sub="cutoff_not_inferred", site="passive/simulation_steps.distinguishable_number_state",
+                     input_class="DistinguishableNumberState+default-config+photons>=4"),
+            {"summary": "; ".join(symptoms), "symptoms": symptoms}, "cni%d" % len(symptoms)))
 
     def compare(name, values):
         """values: {outcome: complex}; returns list of (outcome, got, expected)"""
@@ -1013,7 +1031,7 @@ def _evaluate(ctx, d, cfg_cutoff, prog, model, state):
             findings.append((base_sig(sub="normalisation", site="PassiveState.fock_probabilities", input_class=cls_in), {"summary": "table sums to %r, expected %r" % (total, target)}, "sum"))
 
     # ---------------- marginals ----------------------------------------------------------
-    findings.extend(_check_marginals(ctx, d, cfg_cutoff, prog, state, model, full, ref, dd, active, postsel, cls_in, vals.get("table") if "table" not in wrong else None))
+    findings.extend(_check_marginals(ctx, d, cfg_cutoff, prog, state, model, full, ref, dd, active, postsel, cls_in, vals.get("table") if ("table" not in wrong and not truncated) else None))
 
     if len(ctx.samples) < ctx.max_samples and model.depth >= 1:
         ctx.sample({"program": _short(prog), "d_remaining": dd, "cutoff": cutoff, "lossy": model.lossy, "postselected": {str(k): v for k, v in model.post.items()},
